@@ -207,6 +207,24 @@ Theorem C01_syntax_errors_with_cache_are_forced_errors_of_the_source_grammar :
 Proof. exact cached_run_raise_agrees_with_source. Qed.
 Print Assumptions C01_syntax_errors_with_cache_are_forced_errors_of_the_source_grammar.
 
+(* Corollary, with C01_reference_semantics_deterministic: for grammars in the class, what the method of a rule returns at a
+   position is a function of the grammar and the tokens -- two returning runs from states at the same position, with any
+   amounts of fuel and whatever else the states hold, give the same value and the same end position. *)
+Theorem C01_result_is_determined_by_grammar_and_input :
+  forall K toks M aeval exact_types token_dict rs,
+  reads_back_as rs M = true ->
+  (forall xs e vs, nodup_s xs = true -> Forall2 (fun x v => env_get e x = Some v) xs vs ->
+     aeval (default_text xs) e = Some (match vs with [v] => v | _ => VList vs end)) ->
+  (forall e v vs, env_get e "elem" = Some v -> env_get e "seq" = Some (VList vs) -> aeval "[elem] + seq" e = Some (VList (v :: vs))) ->
+  (forall s t, In t toks -> is_kind2 s = false -> expect_test K exact_types token_dict s t = String.eqb (tstr t) s) ->
+  (forall s t, In t toks -> is_kind2 s = true -> expect_test K exact_types token_dict s t = kind2_test K M s t) ->
+  forall f1 f2 n s1 s2 v1 v2 s1' s2', find_rule rs n <> None -> pos s1 = pos s2 ->
+  run K toks false false M aeval exact_types token_dict f1 n s1 = (Ok v1, s1') ->
+  run K toks false false M aeval exact_types token_dict f2 n s2 = (Ok v2, s2') ->
+  v1 = v2 /\ pos s1' = pos s2'.
+Proof. exact results_determined. Qed.
+Print Assumptions C01_result_is_determined_by_grammar_and_input.
+
 (* Non-vacuity: a grammar with a gather, an optional group, `[x]`, a one-or-more and a zero-or-more repetition; the
    module the generator model emits for it has five helper methods and reads back as the grammar. *)
 Definition ni02 (k : N) (i : item) := NItem k None None i.
